@@ -57,3 +57,12 @@ func spec_wm(p []rune, s []rune, np int, ns int) bool {
 //@   requires Spec_noStar(s)
 //@   ensures ret == Spec_wmatch(p, s)
 //@   serves C05
+
+// Address formatting helpers used by the HTTP handlers: no side effects, one string per address.
+//@ func StringAddress
+//@   trusted
+//@ func StringAddressList
+//@   ensures len(ret) == len(addrs)
+//@   loop 1: invariant 0 <= ridx && ridx <= len(addrs) && len(s) == len(addrs) && vcFresh(s)
+//@   loop 1: decreases len(addrs) - ridx
+//@   serves C14
